@@ -24,20 +24,29 @@ MODEL_FILES = ['Funcs/Funcs.v', 'Funcs/FuncsConv.v', 'Funcs/EvalIdx.v', 'Funcs/F
 K_NAME = ('K_helpers (Funcs.observe over PrimFloat / Z vs fsic.functions.lag/lead/diff/dlog) + K_rewrite (EvalIdx.eval_text / rewrite, '
           'extracted to OCaml, vs VectorContainer._resolve_expression_indexes: string equality) + K_namespace (EvalIdx.eval_M vs eval()) '
           '+ K_int (EvalIdx.parse_int_raw / parse_pyint vs CPython int(s) / int(s.strip()))')
-RULE = ('helpers: every array length 0..6 (thorough 0..8) x every shift -n-2..n+2 x fill values {nan, -1.0, 0.0, inf} x lag/lead/diff/dlog '
-        'x data variants (positive, with zero/negative/nan, int64), plus rank-0/rank-2 arguments — exhaustive at that bound; '
+RULE = ('helpers: every array length 0..6 (thorough 0..9) x every shift -n-2..n+2 x fill values {nan, -1.0, 0.0, inf} x lag/lead/diff/dlog '
+        'x data variants (positive, with zero/negative/nan, int64 with int fills, int64 with float fills nan/inf/1.5/-1.5/2.0/-0.0), plus rank-0/rank-2 arguments — exhaustive at that bound; '
         'expressions: random arithmetic over container variables, helper calls, positional indexes/slices and backticked label '
         'indexes/slices (open ends, steps, missing labels, whitespace) over range / str list / int list / NumPy int+str / pandas Index / '
-        'PeriodIndex Y+Q spans; raw strings: all strings up to length 4 (thorough 5) over an 8-symbol bracket alphabet + random longer ones; '
+        'PeriodIndex Y+Q spans, plus a systematic catalogue (79 label brackets x 51 positional brackets per span type: every bracket alone, '
+        'label x positional pairs: all in thorough, 500 per span type in quick); raw strings: all strings up to length 4 (thorough 5) over an 8-symbol bracket alphabet + random longer ones; '
         'namespace: every subset pattern of {locals, variable, helper/builtins=} for the queried name; int(): each of the 256 Latin-1 '
         'codes as left / right / inner padding of a digit string + random digit/sign/underscore/space strings. Non-trivial = helper call on a '
         'non-empty array, an expression with a bracket or a helper call, a raw string containing "[", any namespace/sem case; distinct by hash.')
 TRUSTED = ['OCaml extraction of EvalIdx.v (ExtrOcamlBasic + ExtrOcamlString, Z/nat kept inductive) + driver coq/Extract/EvalIdx/driver.ml; '
            'a sample of every extracted run is re-evaluated inside Coq by vm_compute',
            'numpy.log is an oracle of the model: its values on the case\'s data are recorded on the run and supplied as a table']
-ASSUMPTIONS = ['arrays are float64 (or int64 with an integer fill value); strings are Latin-1',
+ASSUMPTIONS = ['arrays are float64 or int64 (int64 with int fills through Funcs.v, with float fills through the explicit-cast model FuncsConv.v: '
+               'NumPy\'s cast of the fill value is the Section variable conv, instantiated by conv_int64 = nan->ValueError, inf->OverflowError, '
+               'fractional->truncation, and compared with NumPy on every run); strings are Latin-1',
                'pandas get_loc / `in` answers for PeriodIndex spans are recorded and supplied to the model as a table (C10\'s business)',
-               'the expression itself has no side effects; CPython evaluates the rewritten text (not modelled: pyeval is a Section variable)']
+               'the expression itself has no side effects; CPython evaluates the rewritten text (not modelled: pyeval is a Section variable); '
+               'the module globals of containers.py / Python builtins visible to eval(globals=None) are observed on the run and supplied to the model',
+               'the int() whitespace class [9-13, 32, 0x85, 0xA0] is written in EvalIdx.v (not a regenerated constant); it is validated against the '
+               'running CPython on every run (case kind int: each of the 256 Latin-1 codes as padding)',
+               'index_sem reads a subscript item with int()\'s grammar; Python\'s literal grammar differs on leading zeros (007), repeated signs (--1) '
+               'and non-ASCII whitespace: the sem cases validate canonical spellings only, which is what the rewriter writes',
+               'the tie to label indexing imports the model of property C10 (Locate/Locate.v, Locate/LocateFacts.v)']
 EXHAUSTIVE = {'quick': True, 'thorough': True}
 SOURCES = ['functions.py', 'core/containers.py']
 CASE_TIMEOUT = 30
@@ -676,7 +685,7 @@ def gen_text(rng, tier):
              'X[`zz`]', 'X[`a`:`zz`]', 'X[`1\x1f`]', 'X[`\x1f1`]', 'X[+1\x1f`]', 'X[`\xa011\x85`]', 'X[` 1 `:`\t11\x0c`]', 'X[`1\x1c`:`a`]', 'X[`a`:`11\x1d`]', 'X[`1`1`]', 'X[`1`1`:`a`]', 'X[`a`1`]', 'X[``11``]', 'X[`1``1`]', 'X[1:2:3:4]', 'X[`a`:`1`:2:]', 'X[`a`:`1`: 2 : ]`', 'X[Y[0]]`', 'X[[0]]`', '[[`a`]]', 'X[`a`][`1`]', 'X[:-1] + Y[`a`]', 'X[1:3] + Y[`a`]', 'X[a-1] + Y[`a`]']
     cases += [{'kind': 'text', 'span': TEXT_SPAN, 's': s} for s in extra]
     pool = TEXT_ALPHABET + ['`a`', '`1`', '`11`', '`zz`', '`1\x1f`', '`\x1c1`', '`\xa01`', '` 1 `', '`1\x85`', '`\t11`', '\x1f`', '`\x1e', '-1', '+1', '1_1', ' : ', '[', ']', '\t', '_', '-', '+', '0', '2', 'X', '\x0c', '\xa0', '\x85', '\x1f', '(', ')', ',']
-    for _ in range(1500 if tier == 'quick' else 20000):
+    for _ in range(1500 if tier == 'quick' else 40000):
         s = ''.join(rng.choice(pool) for _ in range(rng.randint(3, 14)))
         cases.append({'kind': 'text', 'span': TEXT_SPAN, 's': s})
     # duplicate labels: list span resolves to the first match, NumPy span refuses (KeyError)
@@ -689,7 +698,7 @@ def gen_text(rng, tier):
 
 def gen_helpers(rng, tier):
     cases = []
-    maxn = 6 if tier == 'quick' else 8
+    maxn = 6 if tier == 'quick' else 9
     fills = [float('nan'), -1.0, 0.0, float('inf')]
     nvar = 2 if tier == 'quick' else 5
     for n in range(0, maxn + 1):
@@ -762,6 +771,41 @@ def gen_sem(rng, tier):
     return cases
 
 
+def gen_enum(rng, tier):
+    """Systematic enumeration: every bracket of a catalogue (label index / label slice with open ends, steps, a missing label,
+    a partial-string year label; positional index / slice / non-literal) alone, and label x positional pairs in one expression
+    (all pairs in the thorough tier, a sample in the quick tier) over four span types."""
+    cases = []
+    w0 = ['', '', '']
+    spans = [({'kind': 'range', 'type': 'range', 'labels': [2000, 2001, 2002, 2003]}, [2000, 2001, 2003, 1234]),
+             ({'kind': 'strlist', 'type': 'list', 'labels': ['a', 'b', 'c', 'd']}, ['a', 'b', 'd', 'zz']),
+             ({'kind': 'np_str', 'type': 'np', 'labels': ['a', 'b', 'c', 'd']}, ['a', 'c', 'd', 'zz']),
+             ({'kind': 'period_Q', 'type': 'period', 'freq': 'Q', 'start': '2000Q3',
+               'labels': ['2000Q3', '2000Q4', '2001Q1', '2001Q2', '2001Q3']}, ['2000Q4', '2001Q2', '2001', 'zz'])]
+    for sp, labs in spans:
+        n = len(sp['labels'])
+        vars_ = [['X', [lib.fhex(float(j + 1)) for j in range(n)]], ['Y', [lib.fhex(10.0 * (j + 1)) for j in range(n)]]]
+        lab_br = [('li', l, w0) for l in labs] + [('ls', a, b, st, w0) for a in [None] + labs for b in [None] + labs for st in (None, '1', '2')]
+        pos_br = ([('pi', str(i), w0) for i in range(-n - 1, n + 1)] +
+                  [('ps', a, b, st, w0) for a in (None, '0', '1', '-1') for b in (None, '0', '2', '-1', str(n)) for st in (None, '2')] +
+                  [('nl', '1-1')])
+
+        def mk(ast):
+            c = {'kind': 'expr', 'span': sp, 'vars': vars_, 'ast': ast, 'expr': render(ast, None, 'expr', sp), 'style': 'enum'}
+            if sp['type'] == 'period':
+                c['probe'] = probe_labels(c['expr'])
+            return c
+        for br in lab_br + pos_br:
+            cases.append(mk(('sub', ('var', 'X'), br)))
+        pairs = [(b1, b2) for b1 in pos_br for b2 in lab_br]
+        if tier == 'quick':
+            pairs = rng.sample(pairs, 500)
+        for k, (b1, b2) in enumerate(pairs):
+            l, r = ('sub', ('var', 'X'), b1), ('sub', ('var', 'Y'), b2)
+            cases.append(mk(('bin', '+', l, r) if k % 2 == 0 else ('bin', '*', r, l)))
+    return cases
+
+
 def gen_int(rng, tier):
     out = []
     for c in range(256):
@@ -801,12 +845,13 @@ def gen(rng, tier):
     npsp = {'kind': 'np_str', 'type': 'np', 'labels': ['a', 'b', 'c', 'd']}
     ast = ('sub', ('var', 'X'), ('ls', 'b', 'd', None, w0))
     cases.append({'kind': 'expr', 'span': npsp, 'vars': [['X', [lib.fhex(float(i)) for i in range(4)]]], 'ast': ast, 'expr': render(ast, None, 'expr', npsp), 'style': 'fixed'})
+    cases += gen_enum(rng, tier)
     cases += gen_helpers(rng, tier)
     cases += gen_ns(rng, tier)
     cases += gen_sem(rng, tier)
     cases += gen_int(rng, tier)
     cases += gen_text(rng, tier)
-    n_expr = 3000 if tier == 'quick' else 60000
+    n_expr = 3000 if tier == 'quick' else 150000
     for i in range(n_expr):
         r = rng.random()
         opts = {'undef': r < 0.15, 'd0': 0.15 <= r < 0.2}
@@ -1405,6 +1450,16 @@ def correspond(cases, obs, tag, tier):
 
 
 def explain(case, obs):
+    try:
+        return _explain(case, obs)
+    except Exception as e:                      # a replay without the model's prediction is still a replay
+        return 'no prediction (%s: %s)' % (type(e).__name__, e)
+
+
+def _explain(case, obs):
+    if case['kind'] == 'helper' and isinstance(case.get('fill'), dict):
+        return lib.coq_eval('explainC16', PRE_H, 'observe_c Z pyfill Z.sub (fun z => z) conv_int64 %s %s %s %s %s' % (
+            FN[case['f']], lib.cnat(case['rank']), lib.clist(lib.cZ(v) for v in case['x']), lib.cZ(case['p']), _c_pyfill(case['fill'])))[-2000:]
     if case['kind'] == 'helper':
         return lib.coq_eval('explainC16', PRE_H, 'observe _ %s %s %s %s %s %s %s' % (
             'PrimFloat.sub' if case['dtype'] == 'f' else 'Z.sub',
